@@ -2,6 +2,7 @@
 the call cache key, and the make order."""
 import itertools
 from vlib.units import unit
+from vlib import mk
 
 FU = 'compiler/functors.py'
 
@@ -31,7 +32,7 @@ def digraphs(n):
 
 
 def mk_functors(mod, direct):
-  f = mod.Functors.__new__(mod.Functors)
+  f = mk.functors(mod)
   f.direct_args_of = {k: set(v) for k, v in direct.items()}
   f.args_of = {}
   f.predicates = set(direct)
